@@ -313,6 +313,41 @@ func scriptCmd(args []string) error {
 				continue
 			}
 			fmt.Fprintf(w, "M %s %s %s %s %d %d %d\n", id, sr.final.id, m[3], m[4], li, off, atoi(m[2]))
+		case m[0] == "T" && len(m) == 6:
+			// MUT T <a> <b> <delta> <si> <st>: the tail of the state after b ends delta bytes
+			// after the end of the state after a
+			a, b, delta := atoi(m[1]), atoi(m[2]), atoi(m[3])
+			da, db := 0, -1
+			if a >= 0 {
+				if a >= len(sr.dirAt) || sr.dirAt[a] < 0 {
+					invalid()
+					continue
+				}
+				da = sr.dirAt[a]
+			}
+			if b >= 0 && b < len(sr.dirAt) {
+				db = sr.dirAt[b]
+			}
+			if db < 0 || db <= da {
+				invalid()
+				continue
+			}
+			A, B := sr.dirs[da], sr.dirs[db]
+			if len(A.files) != len(B.files) {
+				invalid()
+				continue
+			}
+			_, endA := frameOffsets(A.files[len(A.files)-1].data)
+			_, endB := frameOffsets(B.files[len(B.files)-1].data)
+			if endB <= endA || delta < 0 {
+				invalid()
+				continue
+			}
+			t := endA + delta
+			if t > endB {
+				t = endB
+			}
+			fmt.Fprintf(w, "T %s %s %s %s %d %d %d\n", id, B.id, m[4], m[5], len(B.files)-1, t, endA)
 		case m[0] == "Z" && len(m) == 6:
 			a, b := atoi(m[1]), atoi(m[2])
 			mask, _ := strconv.ParseUint(m[3], 10, 64)
